@@ -14,7 +14,7 @@ STATIC = {
 PROPS = {
     "C01": dict(
         title="Civil calendar facts are exactly the proleptic Gregorian calendar",
-        verus=["itime", ("itime", "_static", STATIC), "kspec", "civiladd"],
+        verus=["itime", ("itime", "_static", STATIC), "kspec", "civiladd", "isoweek"],
         kani_quick=["c01_civil"],
         kani_thorough=[],
         design_ref="DESIGN.md section 4, C01",
@@ -58,7 +58,7 @@ PROPS = {
     ),
     "C06": dict(
         title="Zoned arithmetic is DST-aware: calendar units on wall clock, time units exact",
-        verus=["zoned"],
+        verus=["zoned", "tsarith"],
         kani_quick=[], kani_thorough=[],
         design_ref="DESIGN.md section 4, C06",
     ),
@@ -78,7 +78,7 @@ PROPS = {
     ),
     "C05": dict(
         title="Fallible operations return errors: no panics, no out-of-range results",
-        verus=["posix", "tzif", "rounders", "sdur", "zoned", "span", "civiladd", "civildiff", "ambig"],
+        verus=["posix", "tzif", "rounders", "sdur", "zoned", "span", "civiladd", "civildiff", "ambig", "isoweek", "spanround", "zonedround", "tsarith"],
         all_fns=True,
         kani_quick=["c01_civil", "c02_wrappers"],
         kani_thorough=["c10_model"],
@@ -101,10 +101,10 @@ PROPS = {
     ),
     "C07": dict(
         title="Differences are reversible, balanced and sign-consistent for every largest unit",
-        verus=["civildiff"],
+        verus=["civildiff", "tsarith"],
         kani_quick=[], kani_thorough=["c10_model"],
         design_ref="DESIGN.md section 4, C07",
-        level_text="Date differences (Date::until/since, DateDifference::since_with_largest_unit) for every pair of dates and every largest unit: the result equals an explicit specification diff_spec, is reversible w.r.t. the C08 addition semantics, sign-consistent, has no unit above the largest and is balanced; panic-free. DateTime/Time/Timestamp/Zoned differences are NOT decided by this check yet (Zoned::until has the open finding F7).",
+        level_text="Date differences (Date::until/since, DateDifference::since_with_largest_unit) for every pair of dates and every largest unit: the result equals an explicit specification diff_spec, is reversible w.r.t. the C08 addition semantics, sign-consistent, has no unit above the largest and is balanced; panic-free. Timestamp and Time differences (until/since on the rounding-free configuration, duration_until/duration_since) for every pair and every largest unit: result == the exact nanosecond distance balanced up to the largest unit, reversible, one sign, exact Err condition (unit tsarith). DateTime and Zoned differences are NOT decided by this check yet (Zoned::until has the open finding F7).",
     ),
     "C09": dict(
         title="Datetimes print to RFC 3339/9557 text that parses back to the same value",
@@ -112,6 +112,13 @@ PROPS = {
         kani_quick=["c09_printer"], kani_thorough=[],
         design_ref="DESIGN.md section 4, C09",
         level_text="Narrow claim: the offset part of the Temporal printer on the real code, for every offset in -93599..=93599 s: print_offset_rounded emits sign HH:MM with MM <= 59 denoting |offset| rounded to the nearest minute, print_offset_full_precision emits the exact offset (loop-free up to the 2-digit writers, unwinding complete: full-domain proofs). The print->parse identity of whole datetimes, IANA-name lookup and serde are NOT decided (byte-string printers/parsers exceed CBMC at useful buffer sizes and are outside Verus' subset; DESIGN.md section 4, C09).",
+    ),
+    "C11": dict(
+        title="Span balancing and rounding are exact relative to a reference",
+        verus=["spanround", "span"],
+        kani_quick=[], kani_thorough=["c10_model"],
+        design_ref="DESIGN.md section 4, C11",
+        level_text="Uniform-unit part, on the real span.rs code for every span, unit, increment and mode: Span::to_invariant_nanoseconds / from_invariant_nanoseconds (balancing conserves the exact nanosecond count, no unit above the largest, one sign, Ok iff the top unit is within its Span limit), round_span_invariant (no reference: result = balanced form of THE mode-prescribed multiple, calendar units refused via requires_relative_date_err), Nudge::relative_invariant (civil/zoned reference, smallest <= week: conservation, rounded end instant moves by exactly rounded - original) and Nudge::relative_zoned_time (zoned reference, sub-day smallest: day added in the span's direction exactly when rounding reaches the day's real end, end instant consistent with the span). NOT decided: Nudge::relative_calendar and bubble (loops over calendar units with f64 progress), total() (floating point), compare(), SpanRound::round dispatch.",
     ),
     "C16": dict(
         title="strftime/strptime and RFC 2822 agree with the calendar and invert each other",
@@ -136,4 +143,4 @@ NOT_APPLICABLE = {
 
 # properties with a design but no committed check yet (kept current as the build proceeds)
 NOT_YET = {p: "check not built yet in this session (design in DESIGN.md section 4); not claimed" for p in
-           [ "C09", "C11", "C16", "C17"]}
+           []}
